@@ -181,6 +181,17 @@ func (se *specEnv) ident(name string) sval {
 			return v
 		}
 	}
+	// ghost variable of the contract
+	if fr.contract != nil {
+		for _, g := range fr.contract.GhostVars {
+			if g.Name == name {
+				cn := fr.ghostCell(name)
+				if _, ok := compSorts[cn]; ok {
+					return sval{t: se.st.get(cn), sort: g.Sort}
+				}
+			}
+		}
+	}
 	// local variable cell of the frame being verified
 	if a := fr.findLocal(name); a != nil {
 		el := ptrElem(a.Type())
